@@ -808,3 +808,209 @@ Lemma get_host_example :
   get_host HTTP (Some [49; 48; 46; 48; 46; 48; 46; 56; 48; 58; 56; 48]) None = [49; 48; 46; 48; 46; 48; 46; 56; 48]
   /\ get_host HTTPS None (Some ([50; 48; 48; 49; 58; 58; 56], Some [52; 52; 51])) = [91; 50; 48; 48; 49; 58; 58; 56; 93].
 Proof. vm_compute. split; reflexivity. Qed.
+
+(* ------------------------------------------------------------------ get_current_url re-splits *)
+
+Lemma find_sub_unfold p s :
+  find_sub p s = if starts_with p s then Some ([], skipn (length p) s)
+                 else match s with
+                      | [] => None
+                      | y :: r => match find_sub p r with Some (a, b) => Some (y :: a, b) | None => None end
+                      end.
+Proof. destruct s; reflexivity. Qed.
+
+Lemma skipn_app_len (p t : list N) : skipn (length p) (p ++ t) = t.
+Proof. induction p as [|x p IH]; [reflexivity|]. cbn [length app skipn]. exact IH. Qed.
+
+Lemma find_sub_scheme a p' b : mem 58 a = false ->
+  find_sub (58 :: p') (a ++ 58 :: p' ++ b) = Some (a, b).
+Proof.
+  unfold mem. induction a as [|x a IH]; cbn [existsb]; intro H.
+  - cbn [app]. rewrite find_sub_unfold. change (58 :: p' ++ b) with ((58 :: p') ++ b).
+    rewrite starts_with_app, skipn_app_len. reflexivity.
+  - apply orb_false_elim in H. destruct H as [Hx Ha]. rewrite find_sub_unfold.
+    change ((x :: a) ++ 58 :: p' ++ b) with (x :: (a ++ 58 :: p' ++ b)). cbn [starts_with].
+    rewrite Hx. cbn [andb]. rewrite (IH Ha). reflexivity.
+Qed.
+
+Lemma take_while_all (p : N -> bool) k : forallb p k = true -> take_while p k = k.
+Proof.
+  induction k as [|a k IH]; cbn [forallb take_while]; intro H; [reflexivity|].
+  apply andb_prop in H. destruct H as [-> Hk]. rewrite (IH Hk). reflexivity.
+Qed.
+
+Lemma drop_while_all (p : N -> bool) k : forallb p k = true -> drop_while p k = [].
+Proof.
+  induction k as [|a k IH]; cbn [forallb drop_while]; intro H; [reflexivity|].
+  apply andb_prop in H. destruct H as [-> Hk]. exact (IH Hk).
+Qed.
+
+(* a character that quote never emits: not kept, not the percent sign, not a hex digit *)
+Lemma quote_bytes_avoids safe bs x : Forall (fun b => b < 256) bs ->
+  stays safe x = false -> (x =? PCT) = false -> is_hex x = false ->
+  forallb (fun c => negb (c =? x)) (quote_bytes safe bs) = true.
+Proof.
+  intros H Hs Hp Hh. induction H as [|b bs Hb _ IH]; [reflexivity|].
+  unfold quote_bytes in *. cbn [flat_map]. rewrite forallb_app, IH, andb_true_r.
+  destruct (quote_byte_cases safe b) as [[-> Hsb]|[-> _]].
+  - cbn [forallb]. destruct (b =? x) eqn:E; [|reflexivity]. apply N.eqb_eq in E. subst b. congruence.
+  - unfold pct. cbn [forallb].
+    destruct (hex_digit_facts (b / 16)) as [H1 _]; [lia|].
+    destruct (hex_digit_facts (b mod 16)) as [H2 _]; [lia|].
+    rewrite N.eqb_sym, Hp.
+    destruct (hex_digit (b / 16) =? x) eqn:E1; [apply N.eqb_eq in E1; congruence|].
+    destruct (hex_digit (b mod 16) =? x) eqn:E2; [apply N.eqb_eq in E2; congruence|]. reflexivity.
+Qed.
+
+(* the delimiters urlsplit looks for are never emitted by the three quote calls of
+   get_current_url: no question mark or hash in root and path, no hash in the query *)
+Lemma gcu_safe_facts :
+  stays gcu_safe_root 63 || stays gcu_safe_root 35 || stays gcu_safe_path 63 || stays gcu_safe_path 35
+  || stays gcu_safe_query 35 || negb (stays gcu_safe_root 47) = false.
+Proof. vm_compute. reflexivity. Qed.
+
+Lemma forallb_and (p q : N -> bool) l : forallb p l = true -> forallb q l = true ->
+  forallb (fun c => p c && q c) l = true.
+Proof.
+  induction l as [|a l IH]; cbn [forallb]; intros Hp Hq; [reflexivity|].
+  apply andb_prop in Hp. apply andb_prop in Hq. destruct Hp as [-> Hp]. destruct Hq as [-> Hq]. exact (IH Hp Hq).
+Qed.
+
+Lemma forallb_ext' (p q : N -> bool) l : (forall c, p c = q c) -> forallb p l = forallb q l.
+Proof. intro H. induction l as [|x r IH]; cbn [forallb]; [reflexivity|]. rewrite H, IH. reflexivity. Qed.
+
+Lemma quote_no_qf safe s q : stays safe 63 = false -> stays safe 35 = false -> quote safe s = Some q ->
+  forallb not_qf q = true.
+Proof.
+  intros H63 H35 H. unfold quote in H. destruct (valid_text s) eqn:Hv; [|discriminate]. inversion H; subst q.
+  pose proof (quote_bytes_avoids safe _ 63 (utf8_encode_bytes_forall s Hv) H63 eq_refl eq_refl) as A.
+  pose proof (quote_bytes_avoids safe _ 35 (utf8_encode_bytes_forall s Hv) H35 eq_refl eq_refl) as B.
+  pose proof (forallb_and _ _ _ A B) as C. erewrite forallb_ext'; [exact C|].
+  intro c. unfold not_qf. rewrite negb_orb. reflexivity.
+Qed.
+
+Lemma quote_head_slash safe r q : stays safe 47 = true -> quote safe (47 :: r) = Some q -> exists q', q = 47 :: q'.
+Proof.
+  intros Hs H. unfold quote in H. destruct (valid_text (47 :: r)); [|discriminate]. inversion H; subst q.
+  unfold utf8_encode, quote_bytes. cbn [flat_map]. unfold enc1 at 1. replace (47 <? 128) with true by reflexivity.
+  cbn [app flat_map]. destruct (quote_byte_cases safe 47) as [[-> _]|[_ Hc]]; [|congruence].
+  cbn [app]. eauto.
+Qed.
+
+Definition query_part (qs : option bytes) : option str :=
+  match qs with
+  | Some (c :: r) => Some (quote_bytes gcu_safe_query (c :: r))
+  | _ => None
+  end.
+
+Lemma current_uri_resplit scheme host root path qs qr qp :
+  mem 58 scheme = false -> forallb not_delim host = true ->
+  bounded (rstrip_char 47 root) = true ->
+  quote gcu_safe_root (rstrip_char 47 root) = Some qr ->
+  quote gcu_safe_path (lstrip_char 47 path) = Some qp ->
+  match qs with Some q => Forall (fun b => b < 256) q | None => True end ->
+  exists u, current_uri scheme host (Some root) (Some path) qs = Some u
+            /\ split_uri u = Some (scheme, host, qr ++ 47 :: qp, query_part qs).
+Proof.
+  intros Hsch Hhost Hb Hqr Hqp Hq.
+  pose proof gcu_safe_facts as F.
+  apply orb_false_elim in F. destruct F as [F F47]. apply orb_false_elim in F. destruct F as [F Fq35].
+  apply orb_false_elim in F. destruct F as [F Fp35]. apply orb_false_elim in F. destruct F as [F Fp63].
+  apply orb_false_elim in F. destruct F as [Fr63 Fr35].
+  assert (Hroot47 : stays gcu_safe_root 47 = true) by (destruct (stays gcu_safe_root 47); [reflexivity|discriminate]).
+  set (tail := match qs with
+               | Some q => match q with [] => [] | _ :: _ => 63 :: quote_bytes gcu_safe_query q end
+               | None => [] end).
+  set (K := qr ++ 47 :: qp).
+  exists (scheme ++ [58; 47; 47] ++ host ++ K ++ tail). split.
+  - unfold current_uri. rewrite Hqr, Hqp. unfold K, tail. f_equal.
+    rewrite <- ?app_assoc. cbn [app]. rewrite <- ?app_assoc. cbn [app]. reflexivity.
+  - unfold split_uri. change (scheme ++ [58; 47; 47] ++ host ++ K ++ tail) with (scheme ++ 58 :: [47; 47] ++ host ++ K ++ tail).
+    rewrite (find_sub_scheme scheme [47; 47] _ Hsch).
+    assert (HK : exists K', K = 47 :: K').
+    { unfold K. destruct (rstrip_char 47 root) as [|c r] eqn:Er.
+      - unfold quote in Hqr. cbn in Hqr. inversion Hqr; subst qr. cbn [app]. eauto.
+      - cbn [bounded] in Hb. apply N.eqb_eq in Hb. change SL with 47 in Hb. subst c.
+        destruct (quote_head_slash _ _ _ Hroot47 Hqr) as [q' ->]. cbn [app]. eauto. }
+    destruct HK as [K' HK].
+    assert (HKqf : forallb not_qf K = true).
+    { unfold K. rewrite forallb_app. cbn [forallb].
+      rewrite (quote_no_qf gcu_safe_root _ qr Fr63 Fr35 Hqr).
+      rewrite (quote_no_qf gcu_safe_path _ qp Fp63 Fp35 Hqp). reflexivity. }
+    assert (Hauth : take_while not_delim (host ++ K ++ tail) = host /\ drop_while not_delim (host ++ K ++ tail) = K ++ tail).
+    { rewrite HK. cbn [app]. split; [apply take_while_app_stop|apply drop_while_app_stop]; try exact Hhost; reflexivity. }
+    destruct Hauth as [-> ->].
+    assert (Hpath : take_while not_qf (K ++ tail) = K /\
+                    match drop_while not_qf (K ++ tail) with
+                    | c :: r3 => if c =? 63 then Some (take_while not_frag r3) else None
+                    | [] => None end = query_part qs).
+    { unfold tail. destruct qs as [[|c r]|].
+      - rewrite app_nil_r. rewrite take_while_all, drop_while_all by exact HKqf. split; reflexivity.
+      - rewrite take_while_app_stop, drop_while_app_stop by (try exact HKqf; reflexivity). split; [reflexivity|].
+        cbn [N.eqb Pos.eqb query_part]. rewrite take_while_all; [reflexivity|].
+        erewrite forallb_ext'; [apply (quote_bytes_avoids gcu_safe_query (c :: r) 35 Hq Fq35); reflexivity|].
+        intro x. reflexivity.
+      - rewrite app_nil_r. rewrite take_while_all, drop_while_all by exact HKqf. split; reflexivity. }
+    destruct Hpath as [-> ->]. reflexivity.
+Qed.
+
+(* what the re-split path means: percent-decoding gives the bytes of root/path again -- when
+   neither holds a percent sign (the percent sign is in the safe strings, see the refutation) *)
+Lemma unq_bytes_quote_app safe bs rest : Forall (fun b => b < 256) bs -> mem PCT bs = false ->
+  unq_bytes (quote_bytes safe bs ++ rest) = bs ++ unq_bytes rest.
+Proof.
+  induction 1 as [|b bs Hb _ IH]; intro Hm; [reflexivity|].
+  unfold mem in Hm. cbn [existsb] in Hm. apply orb_false_elim in Hm. destruct Hm as [Hb0 Hm].
+  unfold quote_bytes in *. cbn [flat_map]. rewrite <- app_assoc. destruct (quote_byte_cases safe b) as [[-> _]|[-> _]].
+  - cbn [app]. rewrite unq_bytes_nonpct by (rewrite N.eqb_sym; exact Hb0). rewrite (IH Hm). reflexivity.
+  - rewrite (unq_bytes_pct b _ Hb), (IH Hm). reflexivity.
+Qed.
+
+Lemma quote_some safe s q : quote safe s = Some q -> valid_text s = true /\ q = quote_bytes safe (utf8_encode s).
+Proof. unfold quote. destruct (valid_text s); [|discriminate]. intro H. inversion H. split; reflexivity. Qed.
+
+Lemma current_url_path_meaning root path qr qp :
+  mem PCT root = false -> mem PCT path = false ->
+  quote gcu_safe_root root = Some qr -> quote gcu_safe_path path = Some qp ->
+  utf8_decode (unq_bytes (qr ++ 47 :: qp)) = Some (root ++ 47 :: path).
+Proof.
+  intros Hr Hp Hqr Hqp.
+  destruct (quote_some _ _ _ Hqr) as [Vr ->]. destruct (quote_some _ _ _ Hqp) as [Vp ->].
+  rewrite unq_bytes_quote_app by (try apply utf8_encode_bytes_forall; try apply utf8_encode_no_pct; assumption).
+  rewrite unq_bytes_nonpct by reflexivity.
+  rewrite (unq_bytes_quote gcu_safe_path) by (try apply utf8_encode_bytes_forall; try apply utf8_encode_no_pct; assumption).
+  change (utf8_encode root ++ 47 :: utf8_encode path) with (utf8_encode root ++ utf8_encode [47] ++ utf8_encode path).
+  rewrite <- !utf8_encode_app. apply utf8_decode_encode.
+  rewrite valid_text_app, Vr. unfold valid_text in *. cbn [forallb andb]. rewrite Vp. reflexivity.
+Qed.
+
+(* with a literal percent escape in the decoded path the reconstructed URL denotes another path *)
+Lemma current_url_path_refuted :
+  exists path qp, quote gcu_safe_path path = Some qp
+    /\ utf8_decode (unq_bytes (47 :: qp)) = Some [47; 97; 65]
+    /\ [47; 97; 65] <> 47 :: path.
+Proof. exists [97; 37; 52; 49], [97; 37; 52; 49]. vm_compute. repeat split; discriminate. Qed.
+
+Lemma current_url_example :
+  current_uri [104; 116; 116; 112] [104] (Some [47; 114; 47]) (Some [47; 233; 32]) (Some [97; 61; 35])
+  = Some [104; 116; 116; 112; 58; 47; 47; 104; 47; 114; 47; 37; 67; 51; 37; 65; 57; 37; 50; 48; 63; 97; 61; 37; 50; 51]
+  /\ split_uri [104; 116; 116; 112; 58; 47; 47; 104; 47; 114; 47; 37; 67; 51; 37; 65; 57; 37; 50; 48; 63; 97; 61; 37; 50; 51]
+     = Some ([104; 116; 116; 112], [104], [47; 114; 47; 37; 67; 51; 37; 65; 57; 37; 50; 48], Some [97; 61; 37; 50; 51]).
+Proof. vm_compute. split; reflexivity. Qed.
+
+(* host_only / root_only / strip_querystring cut the URL where they say *)
+Lemma wsgi_url_flags scheme hh server script path_info qs :
+  wsgi_current_uri false false true scheme hh server script path_info qs
+    = Some ((scheme ++ [58; 47; 47] ++ get_host scheme hh server) ++ [47])
+  /\ (forall r, wsgi_decoding_dance_replace script = Some r ->
+        wsgi_current_uri true false false scheme hh server script path_info qs
+        = current_uri scheme (get_host scheme hh server) (Some r) None None)
+  /\ (forall r p, wsgi_decoding_dance_replace script = Some r -> wsgi_decoding_dance_replace path_info = Some p ->
+        wsgi_current_uri false true false scheme hh server script path_info qs
+        = current_uri scheme (get_host scheme hh server) (Some r) (Some p) None).
+Proof.
+  unfold wsgi_current_uri, wsgi_url_takes_root, wsgi_url_takes_path, wsgi_url_takes_query. cbn [negb andb].
+  split; [reflexivity|]. split.
+  - intros r ->. reflexivity.
+  - intros r p -> ->. reflexivity.
+Qed.
